@@ -299,6 +299,16 @@ struct VecTarget
             memcpy(p, e.data(), x.z);
             return adopt_sorted(x, want, name.c_str());
         }
+        if (((uint64_t)(key < 0 ? -key : key) >> 5) % 6 == 0)
+        { // the re-sorting step alone on a sequence that is sorted already, empty and one-element sequences included: nothing may change
+            std::string const sname0 = nm(which == 0 ? "sort_fore" : "sort_back");
+            c.st.add(x.M.empty() ? "probe.sort_step_on_empty_sequence" : x.M.size() == 1 ? "probe.sort_step_on_single_element" : "probe.sort_step_on_sorted_sequence");
+            c.site(sname0.c_str());
+            std::vector<std::string> const before = x.M;
+            if (is_buf) { if (which == 0) a_buf_sort_fore(x.b, elem_cmp); else a_buf_sort_back(x.b, elem_cmp); }
+            else { if (which == 0) a_vec_sort_fore(x.v, elem_cmp); else a_vec_sort_back(x.v, elem_cmp); }
+            return adopt_sorted(x, before, sname0.c_str());
+        }
         // push_fore + sort_fore   /   push_back + sort_back
         std::string const pname = nm(which == 0 ? "push_fore" : "push_back");
         void *p = nullptr;
